@@ -24,10 +24,28 @@ func sigSet(p *load.Program) map[string]string {
 	out := map[string]string{}
 	for _, fi := range p.Funcs {
 		if fi.Pkg == p.Root && b1Files[fi.File] {
-			out[fi.Key] = types.TypeString(fi.Obj.Type(), func(pk *types.Package) string { return pk.Name() })
+			out[fi.Key] = sigTypes(fi.Obj.Type().(*types.Signature))
 		}
 	}
 	return out
+}
+
+// sigTypes renders a signature by its parameter and result types only: parameter names are not
+// part of a function's type.
+func sigTypes(sig *types.Signature) string {
+	q := func(pk *types.Package) string { return pk.Name() }
+	tuple := func(t *types.Tuple) string {
+		var parts []string
+		for i := 0; i < t.Len(); i++ {
+			parts = append(parts, types.TypeString(t.At(i).Type(), q))
+		}
+		return "(" + strings.Join(parts, ", ") + ")"
+	}
+	s := "func" + tuple(sig.Params())
+	if sig.Variadic() {
+		s += "…"
+	}
+	return s + " " + tuple(sig.Results())
 }
 
 var b1Ref map[string]string
@@ -82,6 +100,8 @@ func B2(rc *RC) {
 			continue
 		case !inRef || !inCur:
 			rc.S.Viol("B2", k, pos, fmt.Sprintf("%s exists in only one of the default configuration and %s", k, rc.P.Config.Name)).Sig = "missing"
+		case r != c && !sameSkeleton(r, c):
+			rc.S.Undec("B2", k, pos, fmt.Sprintf("%s has a different statement skeleton in the default configuration and under %s (one of the two was restructured): the forms are not compared (%s)", k, rc.P.Config.Name, firstDiff(c, r)))
 		case r != c:
 			rc.S.Viol("B2", k, pos, fmt.Sprintf("%s differs between the default configuration and %s: %s", k, rc.P.Config.Name, firstDiff(c, r))).Sig = lineDiff(c, r)
 		default:
@@ -139,6 +159,11 @@ func B1(rc *RC) {
 		case !inRef:
 			// helper only the alternative file needs: fine, but recorded
 			rc.S.Ok("B1", key, pos, "additional helper of this configuration").Trivial = true
+		case r != c && !load.IsExportedKey(k):
+			// an unexported function or method is called only from its own package, and every
+			// configuration is type-checked as a whole: differing private signatures are a
+			// private matter of the two files
+			rc.S.Ok("B1", key, pos, "private signature differs between the configurations; each configuration type-checks").Trivial = true
 		case r != c:
 			rc.S.Viol("B1", key, pos, fmt.Sprintf("signature differs between configurations: %s vs %s", r, c)).Sig = "signature"
 		default:
